@@ -93,6 +93,62 @@ impl<T: RealNumber, K: Kernel<T, Vec<T>>> Kernel<T, Vec<T>> for Counting<K> {
     }
 }
 
+/// Brent's cycle detection over the optimizer-state digests delivered by the tick hook. The SMO loops
+/// are deterministic functions of that state, so a state seen twice inside one loop is a proof that the
+/// loop never exits (no budget, no clock, no false alarm short of a 64-bit digest collision).
+#[derive(Default)]
+struct CycleDetector {
+    armed: bool,
+    tortoise: u64,
+    power: u64,
+    lam: u64,
+}
+
+impl CycleDetector {
+    fn reset(&mut self) {
+        self.armed = false;
+    }
+    /// returns Some(cycle length) when the state repeats
+    fn step(&mut self, d: u64) -> Option<u64> {
+        if !self.armed {
+            self.armed = true;
+            self.tortoise = d;
+            self.power = 1;
+            self.lam = 0;
+            return None;
+        }
+        self.lam += 1;
+        if d == self.tortoise {
+            return Some(self.lam);
+        }
+        if self.lam == self.power {
+            self.tortoise = d;
+            self.power *= 2;
+            self.lam = 0;
+        }
+        None
+    }
+}
+
+fn install_tick_observer(ticks: Rc<Cell<u64>>, tick_budget: u64) {
+    let mut det = CycleDetector::default();
+    set_tick_observer(Some(Box::new(move |site, digest| {
+        if site == "svc-row" {
+            // a new inner loop starts: states of different loops may legitimately coincide
+            det.reset();
+            return;
+        }
+        let c = ticks.get() + 1;
+        ticks.set(c);
+        if let Some(len) = det.step(digest) {
+            panic!("state-cycle: the optimizer state at `{}` repeated after {} iteration(s) (tick {}): the loop can never exit", site, len, c);
+        }
+        if tick_budget > 0 && c > tick_budget {
+            panic!("step-budget: more than {} SMO iterations", tick_budget);
+        }
+    })));
+}
+
 struct TickGuard;
 impl Drop for TickGuard {
     fn drop(&mut self) {
@@ -179,15 +235,7 @@ impl C10 {
         let ticks = Rc::new(Cell::new(0u64));
         let guard = TapeGuard::install(&case.tape);
         let res = {
-            let t2 = ticks.clone();
-            let tick_budget = case.budget;
-            set_tick_observer(Some(Box::new(move |_site| {
-                let c = t2.get() + 1;
-                t2.set(c);
-                if tick_budget > 0 && c > tick_budget {
-                    panic!("step-budget: more than {} SMO iterations", tick_budget);
-                }
-            })));
+            install_tick_observer(ticks.clone(), case.budget);
             let _tg = TickGuard;
             let params = SVCParameters::default()
                 .with_c(T::from_f64(case.c).unwrap())
@@ -214,7 +262,9 @@ impl C10 {
 
         let model = match res {
             Err(msg) => {
-                if msg.starts_with("step-budget") {
+                if msg.starts_with("state-cycle") {
+                    rep.fail("no-termination", "svc-state-cycle", format!("{}: never returns: {}", ctx, msg));
+                } else if msg.starts_with("step-budget") {
                     rep.fail("no-termination", "svc-step-budget", format!("{}: did not return within the logical step budget: {}", ctx, msg));
                 } else if msg.starts_with("rng-budget") {
                     rep.fail("no-termination", "svc-rng-budget", format!("{}: {}", ctx, msg));
@@ -393,15 +443,7 @@ impl C10 {
         let ticks = Rc::new(Cell::new(0u64));
         let guard = TapeGuard::install(&case.tape);
         let res = {
-            let t2 = ticks.clone();
-            let tick_budget = case.budget;
-            set_tick_observer(Some(Box::new(move |_site| {
-                let c = t2.get() + 1;
-                t2.set(c);
-                if tick_budget > 0 && c > tick_budget {
-                    panic!("step-budget: more than {} SMO iterations", tick_budget);
-                }
-            })));
+            install_tick_observer(ticks.clone(), case.budget);
             let _tg = TickGuard;
             let params = SVRParameters::default()
                 .with_c(T::from_f64(case.c).unwrap())
@@ -426,7 +468,9 @@ impl C10 {
         d.u64(log.digest()).u64(ticks.get());
         let model = match res {
             Err(msg) => {
-                if msg.starts_with("step-budget") {
+                if msg.starts_with("state-cycle") {
+                    rep.fail("no-termination", "svr-state-cycle", format!("{}: never terminates: {}", ctx, msg));
+                } else if msg.starts_with("step-budget") {
                     rep.fail("no-termination", "svr-step-budget", format!("{}: did not terminate within the logical step budget: {}", ctx, msg));
                 } else {
                     rep.fail("panic", "svr-fit", format!("{} panicked: {}", ctx, msg));
@@ -561,13 +605,20 @@ impl C10 {
                 gram[i][j] = got;
                 d.f64(got);
                 let want = kref(&case.kernel, &pts[i], &pts[j]);
-                let den = want.abs().max(1e-300) + if case.kernel.kind == "sigmoid" || case.kernel.kind == "rbf" { rel } else { 0.0 };
-                let err = (got - want).abs() / den.max(if case.f32m { 1e-30 } else { 1e-300 });
+                // error relative to the magnitude of the terms that enter the closed form (a base that
+                // cancels to ~0 must not turn rounding of its terms into a "relative" error)
+                let absdot: f64 = pts[i].iter().zip(&pts[j]).map(|(a, b)| (a * b).abs()).sum();
+                let den = match case.kernel.kind.as_str() {
+                    "linear" => absdot,
+                    "poly" => (case.kernel.gamma.abs() * absdot + case.kernel.coef0.abs()).powf(case.kernel.degree),
+                    _ => 1.0,
+                }
+                .max(f64::MIN_POSITIVE);
                 if want.is_finite() {
+                    let err = (got - want).abs() / den;
                     rep.max(if case.f32m { "kernel_closed_form_err_rel_f32" } else { "kernel_closed_form_err_rel_f64" }, err);
-                    // polynomial with large powers amplifies the rounding of the base: allow degree * rel
                     let allow = rel * (1.0 + case.kernel.degree.abs()) * 8.0;
-                    if !(err <= allow) && (got - want).abs() > allow {
+                    if !(err <= allow) {
                         rep.fail("kernel-closed-form", "kernel-apply", format!("{}: K({:?}, {:?}) = {:e}, closed form {:e}", ctx, pts[i], pts[j], got, want));
                     }
                 }
@@ -752,7 +803,7 @@ fn exhaustive_small() -> &'static Vec<(usize, Vec<Word>)> {
     })
 }
 
-const DEFAULT_BUDGET: u64 = 20_000_000;
+const DEFAULT_BUDGET: u64 = 4_000_000_000;
 
 fn gen_case(batch: &str, index: u64, seed: u64) -> Case {
     let mut r = Xo::fork(seed, "workload");
@@ -795,7 +846,7 @@ fn gen_case(batch: &str, index: u64, seed: u64) -> Case {
                 _ => KSpec { kind: "rbf".into(), gamma: *pr.pick(&[0.1, 0.5]), degree: 0.0, coef0: 0.0 },
             };
             let queries = (0..3).map(|_| (0..p).map(|_| r.range(-3.0, 3.0)).collect()).collect();
-            Case { model: "svr".into(), x, y, kernel, c: 100.0, tol: *pr.pick(&[1e-3, 1e-4]), epoch: 0, eps: *pr.pick(&[0.0, 0.1]), f32m: false, queries, budget: 2_000_000_000, tape: TapeSpec::prng(tape_seed), kind: "svr-hard".into() }
+            Case { model: "svr".into(), x, y, kernel, c: 100.0, tol: *pr.pick(&[1e-3, 1e-4]), epoch: 0, eps: *pr.pick(&[0.0, 0.1]), f32m: false, queries, budget: 4_000_000_000, tape: TapeSpec::prng(tape_seed), kind: "svr-hard".into() }
         }
         "svr" | "svr-f32" => {
             let n = pr.usize_in(4, 40);
@@ -820,8 +871,7 @@ fn gen_case(batch: &str, index: u64, seed: u64) -> Case {
                 c = 1.0;
             }
             let tol = if kernel.kind == "poly" && tol < 1e-3 { 1e-3 } else { tol };
-            // the slowest region observed (RBF, C = 100, tol = 1e-4: up to 5.9e5 iterations) gets a larger budget
-            let budget = if c > 10.0 && tol < 1e-3 { 150_000_000 } else { 30_000_000 };
+            let budget = 500_000_000;
             Case { model: "svr".into(), x, y, kernel, c, tol, epoch: 0, eps: *pr.pick(&[0.0, 0.05, 0.1, 0.5]), f32m, queries, budget, tape: TapeSpec::prng(tape_seed), kind: "svr".into() }
         }
         _ => {
@@ -883,8 +933,8 @@ impl Property for C10 {
             Batch { name: "svc-extreme", count: if q { 8_000 } else { 800_000 }, simulated: true, exhaustive: false, note: "extreme words injected at random draw sites of the shuffles" },
             Batch { name: "svc-forced", count: if q { 8_000 } else { 800_000 }, simulated: true, exhaustive: false, note: "forced identity / reverse / one-class-first / rotated orders for every pass" },
             Batch { name: "svc-f32", count: if q { 4_000 } else { 400_000 }, simulated: true, exhaustive: false, note: "single precision, tolerances scaled" },
-            Batch { name: "svr", count: if q { 6_000 } else { 600_000 }, simulated: false, exhaustive: false, note: "schedule-free ride-along: SVR draws nothing; linear / RBF / polynomial degree<=2, C<=10, n<=40; termination judged against an SMO-iteration budget (tick hook)" },
-            Batch { name: "svr-hard", count: if q { 48 } else { 1_500 }, simulated: false, exhaustive: false, note: "schedule-free: the slowly converging corner (C = 100, linear / quadratic / RBF kernels on features in [-3,3], n 20..60, tol 1e-3..1e-4) with a 2e9-iteration budget; few runs because each takes up to seconds" },
+            Batch { name: "svr", count: if q { 6_000 } else { 600_000 }, simulated: false, exhaustive: false, note: "schedule-free ride-along: SVR draws nothing; linear / RBF / polynomial degree<=2, C<=10, n<=40; termination judged by state-cycle detection over the tick hook's state digests (step budget only as fallback)" },
+            Batch { name: "svr-hard", count: if q { 48 } else { 1_500 }, simulated: false, exhaustive: false, note: "schedule-free: the slowly converging corner (C = 100, linear / quadratic / RBF kernels on features in [-3,3], n 20..60, tol 1e-3..1e-4) with a 4e9-iteration fallback budget; few runs because each takes up to seconds" },
             Batch { name: "svr-f32", count: if q { 1_000 } else { 100_000 }, simulated: false, exhaustive: false, note: "schedule-free, single precision" },
             Batch { name: "kernels", count: if q { 6_000 } else { 600_000 }, simulated: false, exhaustive: false, note: "schedule-free: closed forms, symmetry, PSD of linear/RBF Gram matrices" },
             Batch { name: "kernels-f32", count: if q { 2_000 } else { 200_000 }, simulated: false, exhaustive: false, note: "schedule-free, single precision" },
@@ -1050,7 +1100,7 @@ impl Property for C10 {
     fn assumptions(&self) -> Vec<String> {
         vec![
             "the only nondeterminism SVC::fit consumes is rand::thread_rng() inside Optimizer::permutate, served by the simulator through the patched rand 0.8.8 copy; the kernel cache is a keyed HashMap lookup and its retain() predicate is order independent".into(),
-            "the Counting<K> wrapper delegates to the real kernels; kernel evaluations and the cfg(smartcore_verif) tick in the SMO loops are the logical clock; the budget (2e7 kernel evaluations or SMO ticks for SVC, 3e7 SMO iterations for SVR (1.5e8 for RBF with C = 100 and tol = 1e-4)) is >= 100x the largest count observed on the unchanged tree (reported under measured_maxima)".into(),
+            "the Counting<K> wrapper delegates to the real kernels; kernel evaluations and the cfg(smartcore_verif) tick in the SMO loops are the logical clock. Non-termination is decided by state-cycle detection (Brent) over the optimizer-state digests the tick hook delivers: the loops are deterministic in that state, so a repeated state proves the loop never exits. A step budget remains only as a fallback for non-repeating livelocks and is far beyond anything observed (4e9 kernel evaluations / ticks for SVC and the svr-hard batch, 5e8 SMO iterations for the regular SVR batches; observed maxima are reported under measured_maxima: ~2e8 kernel evaluations for one f32 cubic-kernel fit in 5e6, 5.9e5 / 2.2e7 SVR iterations)".into(),
             "closed-form kernels and the expansion b + sum w_i K(sv_i, x) are computed independently in the harness from the model's serde image".into(),
             "tolerances: box 1e-12*C, |sum w| <= 1e-9*C*n, expansion 1e-9 relative (f32: 1e-5, 1e-3, 2e-3); SVR optimality slack = tol + 1e-9*scale (the stopping rule guarantees tol/2)".into(),
             "SVR workload restricted to the region where SMO converges quickly (n <= 40; RBF with C <= 100; linear and polynomial degree <= 2 with C <= 1, or C = 10 at tol = 1e-2; polynomial only with tol >= 1e-3); slow convergence elsewhere is not judged".into(),
